@@ -19,6 +19,9 @@ Transcription notes (what the C++ does, not what it should do):
 * Knuth division (`divKnuth`) is Algorithm D with the multiplicative normalisation
   `d = 2^w / (v₁ + 1)`, including the `q̂` decrement loop (fuel `2^w + 1`; `none` = loop did not end)
   and the add-back step; `KStats` reports how often each fired.
+* `toChars` is `cnl::to_chars` (charconv/to_chars.h) composed from the wide operators (`value / 10`,
+  `value - quotient * 10`); it only instantiates for *signed* multi-limb `wide_integer`.
+* conversion to/from floating point is not transcribed.
 Lean core only.
 -/
 namespace Cnl.Wide
